@@ -358,14 +358,20 @@ def stocks_cases(cx):
         for lmc in ([None] + ["FixedLifetime", "NormalLifetime", "WeibullLifetime"]):
             for solver in (("manual", "lapack") if sub == "StockDrivenDSM" else ("manual",)):
                 for proc in ("use", None, "nowhere"):
-                    for letters in (("t", "a"), ("t",), ("t", "b", "a"), ("a", "t")):
+                    for letters, spelled in [(l, True) for l in (("t", "a"), ("t",), ("t", "b", "a"), ("a", "t"))] + [(("t", "a"), False)]:
                         if (proc == "nowhere" or letters == ("a", "t")) and (lmc not in (None, "FixedLifetime") or solver != "manual"):
+                            continue
+                        if not spelled and (solver != "manual" or proc != "use"):
                             continue
                         w = new_world(cx)
                         it = w.it
                         procs = it.call_fn(mp, [list(pnames)], {})
                         inp = {"subclass": sub, "lifetime_model_class": lmc, "solver": solver, "process": proc, "dim_letters": list(letters)}
                         kw = dict(name=f"st {sub}", dim_letters=letters, subclass=cx.prog.cls(sub), time_letter="t", solver=solver)
+                        if not spelled:
+                            # name, time letter and solver left to the DEFINITION's defaults: the stock is built with what the definition holds
+                            kw = dict(dim_letters=letters, subclass=cx.prog.cls(sub))
+                            inp["left_to_the_definition_defaults"] = ["name", "time_letter", "solver"]
                         if proc:
                             kw["process_name" if letters != ("t",) else "process"] = proc
                         if lmc:
@@ -389,14 +395,15 @@ def stocks_cases(cx):
                             cx.ob("C18.stocks", False, "make_empty_stocks", inp, f"ended with {kind}: {r}")
                             continue
                         problems = []
-                        st = r.get(f"st {sub}")
+                        want_name, want_solver = (f"st {sub}", solver) if spelled else (sd.f.get("name"), sd.f.get("solver"))
+                        st = r.get(want_name)
                         if len(r) != 1 or not isinstance(st, Obj):
-                            problems.append(f"stock not stored under its name (keys {list(r)})")
+                            problems.append(f"stock not stored under the definition's name '{want_name}' (keys {list(r)})")
                         else:
                             if st.cls.name != sub:
                                 problems.append(f"built a {st.cls.name}, requested {sub}")
-                            if st.f.get("time_letter") != "t" or st.f.get("name") != f"st {sub}":
-                                problems.append("name / time letter not as defined")
+                            if st.f.get("time_letter") != sd.f.get("time_letter") or st.f.get("name") != want_name:
+                                problems.append(f"name / time letter are '{st.f.get('name')}' / '{st.f.get('time_letter')}', the definition holds '{want_name}' / '{sd.f.get('time_letter')}'")
                             if (st.f.get("process") is not (procs[proc] if proc else None)):
                                 problems.append(f"process is {getattr(st.f.get('process'), 'f', {}).get('name')}, defined {proc}")
                             p = dims_ok(w, st, letters)
@@ -413,8 +420,8 @@ def stocks_cases(cx):
                                     problems.append(f"lifetime model is {getattr(getattr(lm, 'cls', None), 'name', lm)}, requested {lmc}")
                                 elif dims_ok(w, lm, letters) or lm.f.get("time_letter") != "t":
                                     problems.append("lifetime model is not over the stock's dims / time letter")
-                            if sub == "StockDrivenDSM" and st.f.get("solver") != solver:
-                                problems.append(f"solver is '{st.f.get('solver')}', the definition says '{solver}'")
+                            if sub == "StockDrivenDSM" and st.f.get("solver") != want_solver:
+                                problems.append(f"solver is '{st.f.get('solver')}', the definition says '{want_solver}'")
                         cx.ob("C18.stocks", not problems, "make_empty_stocks", inp, "; ".join(problems[:3]))
     # a time letter other than the default
     for sub in STOCK_CLS:
@@ -676,6 +683,11 @@ def field_consumption(prog, rep, cx):
                 for n in ast.walk(root):
                     if isinstance(n, ast.Attribute):
                         reads.add(n.attr)
+                    # wholesale or computed reads (model_dump(), dict(x), vars(x), x.__dict__, getattr(x, name)): every field may be
+                    # read that way - what is done with the values is decided by the evaluated cases, not by this rule
+                    if (isinstance(n, ast.Attribute) and n.attr in ("model_dump", "__dict__", "model_fields_set", "model_copy", "dict")) or \
+                            (isinstance(n, ast.Call) and isinstance(n.func, ast.Name) and n.func.id in ("getattr", "vars", "dict")):
+                        reads.update(fields)
         for f in fields:
             ok = f in reads
             rep.oblige(rid, ok, where=cname, what=f)
